@@ -275,6 +275,23 @@ Fixpoint arun (ops : list op) (a : astate) : option astate :=
 Definition awrite_batch (a : astate) (r b j : nat) (v : A) : astate :=
   let d := snd (aget a r) in upd r (fst (aget a r), upd b (upd j v (nth b d [])) d) a.
 
+(* the operations that start with SHARK_RUNTIME_CHECK(isIndependent(), "Container is not Independent") *)
+Definition guarded (o : op) : option nat :=
+  match o with
+  | OSplice r _ _ | ORepartition r _ | OSplitBatch r _ _ => Some r
+  | _ => None
+  end.
+
+(* (c) where the element shape goes: a function of the operation alone (old = the shapes before) *)
+Definition shape_after (o : op) (old : nat -> Sh) (y : nat) : Sh :=
+  match o with
+  | OCreate r s _ _ => if y =? r then s else old y
+  | OCopy r q | OSubset r q _ | OSplice r q _ => if y =? q then old r else old y
+  | OClear r => if y =? r then shape0 else old y
+  | OSubset3 r q t _ => if (y =? q) || (y =? t) then old r else old y
+  | _ => old y
+  end.
+
 (* the operations that hand the batches of container x to another container *)
 Definition exports (o : op) (x : nat) : bool :=
   match o with
